@@ -33,6 +33,39 @@ def plan (perms : List Perm) (run skip : Node) (insts : List Inst) : List (Inst 
     let b := batchFor perms run skip i
     if b.isEmpty then none else some (i, b))
 
+/-! ### names of the gRPC-peer permutations
+
+`addGRPCMarkerToName(fullName, simpleName, …)`: `strings.TrimSuffix(fullName, simpleName) + marker +
+"/" + simpleName`.  The full name is `path.Join(suite, axis components …, simpleName)`; at the level
+of path components (names split at `/`, as everywhere in this model) the full name ENDS with the
+components of the simple name, and the marker becomes one more component in front of that ending —
+wherever else the same components occur in the name (in the suite's name, in an axis component). -/
+
+/-- the full name without its ending of `simple.length` components -/
+def namePrefix (full simple : List String) : List String := full.take (full.length - simple.length)
+
+/-- `addGRPCMarkerToName` on path components -/
+def markName (full simple : List String) (marker : String) : List String :=
+  namePrefix full simple ++ marker :: simple
+
+/-- the variant that cuts the full name at the FIRST place where the components of the simple name
+occur (`strings.Cut`) -/
+def firstAt (simple : List String) : List String → Nat → Nat
+  | [], k => k
+  | x :: xs, k => if simple.isPrefixOf (x :: xs) then k else firstAt simple xs (k + 1)
+def markAtFirst (full simple : List String) (marker : String) : List String :=
+  full.take (firstAt simple full 0) ++ marker :: simple
+
+/-- the name under which a permutation goes to a gRPC reference server -/
+def grpcServerMarker : String := "(grpc server impl)"
+
+/-- which permutations the gRPC reference server takes part in (`filterGRPCImplTestCases` with
+`serverIsGRPCImpl`): gRPC (HTTP/2) or gRPC-Web (HTTP/1.1, HTTP/2), proto, identity or gzip, no TLS, no
+raw response -/
+def grpcServerTakes (i : Inst) (codec comp : Nat) (rawResp : Bool) : Bool :=
+  i.proto != 1 && (if i.proto == 3 then (i.ver == 1 || i.ver == 2) else i.ver == 2) && codec == 1 && (comp == 1 || comp == 2) &&
+    !i.tls && !rawResp
+
 /-! ### server life cycle bookkeeping
 
 Every batch runs in its own goroutine: `sema.Acquire` (in the dispatching loop, before the
